@@ -177,6 +177,8 @@ func checkC13(c *Ctx) {
 		c10RecvLoop(c, a)
 	}
 	c09Reassembly2(c, "C13-K7")
+	// the matchers compare ServerIdentifier() and MessageType(): both must report option 54 / 53 and nothing else
+	c17AccessorsSel(c, map[string]bool{"ServerIdentifier": true, "MessageType": true})
 }
 
 // c13Nak: the NAK branch returns *ErrNak{Offer, Nak}
